@@ -27,6 +27,8 @@ type accCol struct {
 	commutative         bool
 	// f computes the new value from the current value, the sample parts
 	// (parts[0] = whole sample, parts[i] = i-th element or "") and the row.
+	// nil for a generated column whose meaning the statement and the docs leave
+	// open (accProgram.unsettled names its class): history independence only, see accumgen.go
 	f func(cur string, parts func(int) string, row func(string) string) string
 }
 
@@ -36,6 +38,13 @@ type accProgram struct {
 	groupIdx []int       // which element each group expression reads
 	cols     []accCol
 	alphabet []string
+	// generated programs (accumgen.go)
+	generated  bool
+	groupProbe bool     // a group expression names something other than match groups: the reference group is the one a fresh aggregator gives
+	groupParts [][]int  // otherwise: the elements each group expression joins with '/'
+	groupClass string   // the least settled kind of name in group position
+	sorts      []string // sort expressions applied to the final state
+	unsettled  []string // per column: "" or the class of the name whose meaning is left open
 }
 
 func refInt(s string) (int, bool) {
@@ -105,6 +114,9 @@ var accPrograms = []accProgram{
 }
 
 func accProgramByName(n string) *accProgram {
+	if strings.HasPrefix(n, "gen/") {
+		return genProgram(n)
+	}
 	for i := range accPrograms {
 		if accPrograms[i].name == n {
 			return &accPrograms[i]
@@ -123,6 +135,12 @@ func runAccumAt(prog *accProgram, samples []string, cp checkAt) (res result) {
 	ref := map[string][]string{} // group key -> column values
 	step := func(i int, apply bool) *fail {
 		return guard("accum", &where, func() *fail {
+			if impl == nil && prog.generated {
+				var f *fail
+				if impl, f = newGenAggregator(prog, nil, &where); f != nil {
+					return f
+				}
+			}
 			if impl == nil {
 				impl = aggregation.NewAccumulatingGroup(funclib.NewKeyBuilder())
 				for _, g := range prog.groups {
@@ -160,6 +178,12 @@ func runAccumAt(prog *accProgram, samples []string, cp checkAt) (res result) {
 					gk = append(gk, parts(gi))
 				}
 				key := strings.Join(gk, "\x00")
+				if prog.generated {
+					var f *fail
+					if key, f = genGroupKey(prog, s, parts); f != nil {
+						return f
+					}
+				}
 				row, ok := ref[key]
 				if !ok {
 					row = make([]string, len(prog.cols))
@@ -176,14 +200,30 @@ func runAccumAt(prog *accProgram, samples []string, cp checkAt) (res result) {
 					}
 					return ""
 				}
+				before := append([]string{}, row...)
 				for ci, c := range prog.cols {
-					row[ci] = c.f(row[ci], parts, lookup)
+					if c.f != nil {
+						row[ci] = c.f(row[ci], parts, lookup)
+						continue
+					}
+					// unsettled meaning: the step is a function of the row before and the sample alone
+					st := genOneStep(prog, before, s)
+					if st.f != nil {
+						return st.f
+					}
+					row[ci] = st.row[ci]
 				}
 			}
 			if !cp.at(i+1, len(samples)) {
 				return nil
 			}
-			return checkAccum(impl, prog, ref, &where, &res.state, &res.orderKey)
+			if f := checkAccum(impl, prog, ref, &where, &res.state, &res.orderKey); f != nil {
+				return f
+			}
+			if prog.generated && i+1 == len(samples) {
+				return checkGenSorts(impl, prog, ref, &where)
+			}
+			return nil
 		})
 	}
 	if f := step(-1, false); f != nil {
@@ -214,6 +254,9 @@ func checkAccum(impl *aggregation.AccumulatingGroup, prog *accProgram, ref map[s
 	}
 	*where = "DataCount"
 	if g := impl.DataCount(); g != len(ref) {
+		if prog.groupProbe {
+			return failf("C07/accum/group-of-a-sample-depends-on-history/"+prog.groupClass, "DataCount()=%d; filing every sample under the group it gets on a fresh aggregator gives %d groups %q (group expressions %q)", g, len(ref), sortedKeys(ref), prog.groups)
+		}
 		return failf("C07/accum/group-count-mismatch", "DataCount()=%d, fold has %d groups %q", g, len(ref), sortedKeys(ref))
 	}
 	*where = "Groups"
@@ -225,6 +268,9 @@ func checkAccum(impl *aggregation.AccumulatingGroup, prog *accProgram, ref map[s
 	sorted := append([]string{}, gs...)
 	sort.Strings(sorted)
 	if want := sortedKeys(ref); !equalStrings(sorted, want) {
+		if prog.groupProbe {
+			return failf("C07/accum/group-of-a-sample-depends-on-history/"+prog.groupClass, "Groups()=%q; filing every sample under the group it gets on a fresh aggregator gives %q (group expressions %q)", gs, want, prog.groups)
+		}
 		return failf("C07/accum/group-set-mismatch", "Groups()=%q, fold has %q", gs, want)
 	}
 	*where = "DataCols"
@@ -235,7 +281,7 @@ func checkAccum(impl *aggregation.AccumulatingGroup, prog *accProgram, ref map[s
 		return failf("C07/accum/columns-mismatch", "GroupColCount/ColCount/GroupCols disagree with the definition")
 	}
 	var sb, ob strings.Builder
-	fmt.Fprintf(&sb, "groups%q", gs)
+	fmt.Fprintf(&sb, "groups%q", sorted)
 	for _, k := range sorted {
 		*where = "Data"
 		data := impl.Data(aggregation.GroupKey(k))
@@ -251,6 +297,9 @@ func checkAccum(impl *aggregation.AccumulatingGroup, prog *accProgram, ref map[s
 			if strings.Contains(want, errMarker) {
 				// the reference only knows "some error text here"
 				ok = want != errMarker || isErrValue(data[ci])
+			}
+			if !ok && c.f == nil {
+				return failf("C07/accum/value-depends-on-history/"+prog.unsettled[ci], "group %q column %s (%s) is %q; a fresh aggregator whose initial values are the row before gives %q for the same sample", k, c.name, c.expr, data[ci], want)
 			}
 			if !ok {
 				return failf("C07/accum/value-mismatch", "group %q column %s (%s, initial %q) is %q, the fold gives %q", k, c.name, c.expr, c.initial, data[ci], strings.ReplaceAll(want, errMarker, "<error>"))
